@@ -24,7 +24,8 @@ EXPLANATION = (
     " (R4) no lexical path normalisation (normpath / abspath) anywhere in the package: '..' reaches the resolver's realpath + boundary check unfolded."
     ' (R5) key mapping round trip by scenario evaluation incl. sibling-prefix and doubled-slash keys (C20.R9); (R6) on S3 the root is enforced by _get_s3_key: only the backend, the range reader and the lock providers hold the raw client, and every key they use comes from _get_s3_key / create_lock.'
     ' R2: the canonical paths are compared unaltered (no casefold / lower / replace); R3: os.walk does not follow symlinks, every path handed out passed the escape test.'
-    " R2 finds the canonical root by role (a parameterless method / new property whose every return is realpath(self.base_path), evaluated at the time of the check - not an attribute stored at construction) and decides the re-rooting clause by scenario over nine spellings ('/../x', '//x', '/a/../../x' ...): what reaches realpath() is the base joined with the input minus its leading slashes, component for component.")
+    " R2 finds the canonical root by role (a parameterless method / new property whose every return is realpath(self.base_path), evaluated at the time of the check - not an attribute stored at construction) and decides the re-rooting clause by scenario over nine spellings ('/../x', '//x', '/a/../../x' ...): what reaches realpath() is the base joined with the input minus its leading slashes, component for component."
+    ' (R7) an escaping LISTED path aborts the collection before anything is classified or deleted (C07.R3).')
 NOT_DECIDED = "behaviour of realpath on symlink arrangements at run time; TOCTOU between check and use"
 
 SANITISERS = {"_resolve_path", "_get_arrow_path", "_real_base_path"}
